@@ -86,8 +86,9 @@ class MapT(T):
 
 
 class SetT(T):
-    def __init__(self, key='U'):
+    def __init__(self, key='U', elem_kind=None):
         self.key = key
+        self.elem_kind = elem_kind
 
 
 class LockT(T):
@@ -215,6 +216,14 @@ class LoopCtx:
             elif h.kind == 'slist':
                 self.length = h.meta['len']
                 self.item_fn = lambda k, s, h=h: h.meta['elem'](k)
+            elif h.kind == 'sset':
+                # iteration over a set snapshot: an enumeration of unspecified order (A-DICT-ORDER)
+                n = z3.Int(fresh_name('set_len'))
+                st.assume(n >= 0)
+                arr = z3.Array(fresh_name('set_enum'), z3.IntSort(), U)
+                k = h.meta.get('elem_kind')
+                self.length = n
+                self.item_fn = lambda i, s, arr=arr, k=k: Opaque(z3.Select(arr, i if is_sym(i) else z3.IntVal(i)), kind=k)
             elif h.kind == 'list' and spec.iterate_concrete_list_symbolically:
                 raise NotImplementedError
             else:
@@ -286,7 +295,7 @@ class Contract:
     def __init__(self, target, props=(), params=None, self_type=None, requires=None, ensures=None,
                  raises=None, modifies=None, returns=None, effects=None, loops=None, inline=False,
                  raise_when=None, setup=None, twins=None, replay=None, top=False, note='',
-                 checks=None, inline_callees=(),
+                 checks=None, inline_callees=(), typed=False,
                  old_at='entry', kwargs_type=None, monitor=False, events=True, raise_effects=None,
                  reach=True):
         self.target = target
@@ -296,6 +305,7 @@ class Contract:
         self.requires = requires or (lambda c: [])
         self.ensures = ensures or (lambda c: {})   # checked at the root, assumed at call sites
         self.inline_callees = tuple(inline_callees)
+        self.typed = typed
         self.checks = checks or (lambda c: {})     # checked at the root only (trace / top-level)
         self.raises = raises or {}        # exc class name -> fn(c) -> dict name->Bool (checked)
         self.raise_when = raise_when or {}  # exc class name -> fn(c) -> Bool assumed at call sites
